@@ -117,7 +117,12 @@ def variants(pid, script, idx):
     if pid == "C07":
         cfgs = [(st, sr, ms, co) for st in gen.CT_STYLES for sr in gen.CT_STALE
                 for ms in (1, 8, 1000000) for co in ("none", "type")]
-        for st, sr, ms, co in rng.sample(cfgs, 5):
+        chosen = rng.sample(cfgs, 5)
+        if "quiet 1" in lines[:3]:
+            # heavy history: every table style x stale-removal policy
+            chosen = [(st, sr, rng.choice([1000000, 1000000, 4096]), rng.choice(["none", "type"]))
+                      for st in gen.CT_STYLES for sr in gen.CT_STALE]
+        for st, sr, ms, co in chosen:
             label = "ct=%s stale=%s maxsize=%d compress=%s" % (st, sr, ms, co)
             ls = [("init " + label) if ln.split()[:1] == ["init"] else ln for ln in lines]
             out.append((label, "\n".join(ls) + "\n"))
@@ -272,7 +277,8 @@ PROPS["C06"] = dict(
     level_note=_MODELLED + "Kernel theorems about the counter arrays are in progress (partial); use-after-free "
                "in the C++ runtime is outside what a Gallina model can exhibit.")
 PROPS["C07"] = dict(
-    gens=[("hist", lambda r: gen.gen_hist(r, blank=True), 0.7), ("reuse", gen.gen_reuse, 0.6)],
+    gens=[("hist", lambda r: gen.gen_hist(r, blank=True), 0.7), ("reuse", gen.gen_reuse, 0.6),
+          ("heavy", gen.gen_heavy_ct, 0.2)],
     quick=30, thorough=300, rule=_AUDIT_RULE +
     "; every script is re-run under 5 other compute-table configurations (style x stale policy x max size x "
     "compression) and once with the caches cleared after every command: all observations must coincide",
